@@ -1500,6 +1500,13 @@ func (m *metadataAPI) RemoveStream(stream *stream, recovered bool, epoch uint64)
 	// recreate will un-tombstone the stream.
 	if recovered {
 		stream.Tombstone()
+		// Consumer groups must learn about the deletion now, with the epoch
+		// of the delete, exactly as they did when the operation was first
+		// applied. Otherwise they are only told when the stream is
+		// un-tombstoned or purged at the end of recovery, with a different
+		// epoch, and a restarted server ends up with different group epochs
+		// than before the restart.
+		m.deletedStreams = append(m.deletedStreams, deletedStream{name: stream.GetName(), epoch: epoch})
 	} else {
 		if err := m.deleteStream(stream, epoch); err != nil {
 			return err
